@@ -1,3 +1,28 @@
 import Nitime.Props.C02
 open Nitime.C02.Props
 #print axioms accepts_iff_documented
+#print axioms series_accepts_iff_documented
+#print axioms wd_table
+#print axioms rejects_documented
+#print axioms accepts_documented
+#print axioms series_rejects_documented
+#print axioms samples_affine
+#print axioms samples_diff
+#print axioms mkUniform_ok
+#print axioms len_eq_length
+#print axioms len_duration_only
+#print axioms attrs_describe_axis
+#print axioms last_sample_before_end
+#print axioms len_eq_data
+#print axioms len_eq_data_from_time
+#print axioms interval_object_any_unit
+#print axioms same_interval_any_unit_pair
+#print axioms same_sampling_same_axis
+#print axioms len_eq_length_counterexample
+#print axioms len_eq_length_counterexample2
+#print axioms same_sampling_counterexample
+#print axioms attrs_describe_axis_counterexample
+#print axioms from_axis_counterexample
+#print axioms duration_object_counterexample
+#print axioms rejects_documented_partial
+#print axioms len_eq_length_partial
